@@ -190,7 +190,10 @@ def run_check(prop, tier):
                 continue        # same site already reported three times: keep the output readable
             replayed += 1
             rp_out = os.path.join(bdir, "replay.txt")
-            rcmd = engine_cmd(exe, run, tier, rp_out, ["--only", key, "--case-timeout", "300"])
+            # a reported hang is re-run alone with six times the sweep's limit (enough to tell a load stall from a call that never
+            # returns, without waiting five minutes per report)
+            rto = str(min(300, 6 * run.get("case_timeout", 30))) if site.endswith(":hang") else "300"
+            rcmd = engine_cmd(exe, run, tier, rp_out, ["--only", key, "--case-timeout", rto])
             subprocess.run(rcmd, env=env, stdout=subprocess.PIPE, stderr=subprocess.STDOUT, text=True)
             rres = parse_out(rp_out)
             same = [x for x in rres["V"] if x["key"] == key and x["site"] == site]
